@@ -108,6 +108,13 @@ theorem C05_models_entry_any (inner : List Node) (as1 as2 as3 : List String) :
 theorem C05_models_entry_underscore (x : Node) (st : St) :
     (parseVModel (.mk .jsxExprContainer [] [nArray [nArg x, nArg (nStr "my_arg")]]) true none [] st).1
       = .vmodel (some (nStr "my_arg")) (some (nStr "my_arg")) none x := by
-  simp [parseVModel, containerExpr, nArray, nList, arrayElems, plainElem, nArg, nStr, transformModifiers]
+  simp [parseVModel, containerExpr, nArray, nList, arrayElems, plainElem, nArg, nStr, transformModifiers, setOfList]
+
+/-- `v-model_trim={[x, 'arg']}` on a component: the argument is the second element and the modifier suffix is kept
+    (fix 673c257: it was dropped when the array had an argument but no modifier list). -/
+theorem C05_array_argument_keeps_suffix_modifiers (x : Node) (st : St) :
+    (parseVModel (.mk .jsxExprContainer [] [nArray [nArg x, nArg (nStr "arg")]]) true none ["trim"] st).1
+      = .vmodel (some (nStr "arg")) (some (nStr "arg")) (transformModifiers ["trim"] true) x := by
+  simp [parseVModel, containerExpr, nArray, nList, arrayElems, plainElem, nArg, nStr, setOfList, setInsert]
 
 end VueJsx
